@@ -29,6 +29,8 @@ import (
 	"strings"
 
 	"github.com/pingcap/failpoint"
+	"github.com/pingcap/kvproto/pkg/errorpb"
+	"github.com/pingcap/kvproto/pkg/metapb"
 	"github.com/pingcap/log"
 	"github.com/pkg/errors"
 	"github.com/tikv/client-go/v2/config/retry"
@@ -69,6 +71,9 @@ type cfgEnt struct {
 	c                            *retry.Config
 	id, nameID, base, cap, jit   int
 	errID                        int
+	govar                        string
+	origErr                      error
+	origFn                       [3]int
 }
 
 var cfgs []cfgEnt
@@ -103,7 +108,7 @@ func errIDOf(e error) int {
 	return -1
 }
 
-func addCfg(c *retry.Config) {
+func addCfg(c *retry.Config, govar ...string) {
 	b, cp, j := c.VerifFn()
 	e := c.VerifErr()
 	id := errIDOf(e)
@@ -111,16 +116,25 @@ func addCfg(c *retry.Config) {
 		errVals = append(errVals, e)
 		id = len(errVals)
 	}
-	ent := cfgEnt{c: c, id: len(cfgs), nameID: nameID(c.VerifName()), base: b, cap: cp, jit: j, errID: id}
+	ent := cfgEnt{c: c, id: len(cfgs), nameID: nameID(c.VerifName()), base: b, cap: cp, jit: j, errID: id, govar: "-", origErr: e, origFn: [3]int{b, cp, j}}
+	if len(govar) > 0 {
+		ent.govar = govar[0]
+	}
+	if c.Base() != b || c.String() != c.VerifName() {
+		panic("Config.Base/String disagree with the fields")
+	}
 	cfgByPtr[c] = ent.id
 	cfgs = append(cfgs, ent)
 }
 
 func initCfgs() {
-	for _, c := range []*retry.Config{retry.BoTiKVRPC, retry.BoTxnLock, retry.BoRegionMiss, retry.BoTiKVServerBusy,
+	real := []*retry.Config{retry.BoTiKVRPC, retry.BoTxnLock, retry.BoRegionMiss, retry.BoTiKVServerBusy,
 		retry.BoPDRPC, retry.BoTxnLockFast, retry.BoTiFlashServerBusy, retry.BoTiKVDiskFull, retry.BoStaleCmd,
-		retry.BoRegionScheduling, retry.BoTxnNotFound} {
-		addCfg(c)
+		retry.BoRegionScheduling, retry.BoTxnNotFound}
+	names := []string{"BoTiKVRPC", "BoTxnLock", "BoRegionMiss", "BoTiKVServerBusy", "BoPDRPC", "BoTxnLockFast",
+		"BoTiFlashServerBusy", "BoTiKVDiskFull", "BoStaleCmd", "BoRegionScheduling", "BoTxnNotFound"}
+	for i, c := range real {
+		addCfg(c, names[i])
 	}
 	addCfg(retry.NewConfig("vFull", nil, retry.NewBackoffFnCfg(10, 300, retry.FullJitter), errors.New("vFull timeout")))       // 11
 	addCfg(retry.NewConfig("vDecorr", nil, retry.NewBackoffFnCfg(5, 400, retry.DecorrJitter), errors.New("vDecorr timeout")))  // 12
@@ -128,6 +142,13 @@ func initCfgs() {
 	addCfg(retry.NewConfig("txnLock", nil, retry.NewBackoffFnCfg(30, 90, retry.NoJitter), errors.New("second txnLock")))      // 14: same name, other pointer
 	addCfg(retry.NewConfig("tikvServerBusy", nil, retry.NewBackoffFnCfg(50, 700, retry.EqualJitter), errors.New("busy2")))    // 15: excluded by name
 	addCfg(retry.NewConfig("", nil, retry.NewBackoffFnCfg(3, 40, retry.NoJitter), errors.New("anonymous")))                   // 16: empty name
+	addCfg(retry.BoTiFlashRPC, "BoTiFlashRPC")                             // 17
+	addCfg(retry.BoRegionRecoveryInProgress, "BoRegionRecoveryInProgress") // 18
+	addCfg(retry.BoMaxTsNotSynced, "BoMaxTsNotSynced")                     // 19
+	addCfg(retry.BoCommitTSLag, "BoCommitTSLag")                           // 20
+	addCfg(retry.BoMaxRegionNotInitialized, "BoMaxRegionNotInitialized")   // 21
+	addCfg(retry.BoIsWitness, "BoIsWitness")                               // 22
+	addCfg(retry.NewConfig("TXNLOCKFAST", nil, retry.NewBackoffFnCfg(7, 900, retry.EqualJitter), errors.New("upper lock fast"))) // 23: EqualFold
 }
 
 // ---- world ----
@@ -144,10 +165,12 @@ type world struct {
 	ctxDone   []bool
 	vars      []*kv.Variables
 	errSeq    int
+	reasons   map[string]int // error text recorded by the back-offer -> error id
+	sparse    bool
 }
 
 func newWorld() *world {
-	return &world{vars: []*kv.Variables{kv.DefaultVars}}
+	return &world{vars: []*kv.Variables{kv.DefaultVars}, reasons: map[string]int{}}
 }
 
 func (w *world) cancelled(c int) bool {
@@ -202,7 +225,28 @@ func (w *world) state(i int) string {
 	b := w.bos[i]
 	var errs, cs, ts []string
 	for _, r := range b.VerifLatestErrors() {
-		errs = append(errs, strings.TrimPrefix(r, "e"))
+		if id, ok := w.reasons[r]; ok {
+			errs = append(errs, strconv.Itoa(id))
+		} else {
+			errs = append(errs, strings.TrimPrefix(r, "e"))
+		}
+	}
+	ctxID, varsID, killed := -1, -1, 0
+	for k, c := range w.ctxs {
+		if c == b.GetCtx() {
+			ctxID = k
+		}
+	}
+	for k, v := range w.vars {
+		if v == b.GetVars() {
+			varsID = k
+		}
+	}
+	if err := b.CheckKilled(); err != nil {
+		killed = -1
+		if k, ok := errors.Cause(err).(tikverr.ErrQueryInterruptedWithSignal); ok {
+			killed = int(k.Signal)
+		}
 	}
 	for _, c := range b.VerifConfigs() {
 		id, ok := cfgByPtr[c]
@@ -218,24 +262,26 @@ func (w *world) state(i int) string {
 		}
 		ts = append(ts, strconv.Itoa(id))
 	}
-	return fmt.Sprintf("%d=%d,%d,%d,%d|%s|%s|%s|%s|%s", i, b.VerifMaxSleep(), b.GetTotalSleep(), b.VerifExcludedSleep(),
-		b.ErrorsNum(), strings.Join(errs, "."), mapStr(b.GetBackoffSleepMS()), mapStr(b.GetBackoffTimes()),
-		strings.Join(cs, "."), strings.Join(ts, "."))
+	return fmt.Sprintf("%d=%d,%d,%d,%d,%d,%d,%d,%d|%s|%s|%s|%s|%s|%s", i, b.VerifMaxSleep(), b.GetTotalSleep(), b.VerifExcludedSleep(),
+		b.ErrorsNum(), ctxID, varsID, killed, b.GetTotalBackoffTimes(), strings.Join(errs, "."), mapStr(b.GetBackoffSleepMS()), mapStr(b.GetBackoffTimes()),
+		strings.Join(cs, "."), strings.Join(ts, "."), b.String())
 }
 
 type op struct {
-	k          string
-	a, b, c, d int
+	k             string
+	a, b, c, d, e int // B: e = api (0 BackoffWithCfgAndMaxSleep, 1 Backoff, 2 BackoffWithMaxSleepTxnLockFast, 3/4 MayBackoffForRegionError fake-epoch/other)
 }
 
 func (o op) String() string {
 	switch o.k {
-	case "V", "M", "RM", "K":
+	case "V", "M", "RM", "K", "SE", "SC", "MN":
 		return fmt.Sprintf("%s\t%d\t%d", o.k, o.a, o.b)
 	case "N":
 		return fmt.Sprintf("N\t%d\t%d\t%d", o.a, o.b, o.c)
 	case "B":
-		return fmt.Sprintf("B\t%d\t%d\t%d\t%d", o.a, o.b, o.c, o.d)
+		return fmt.Sprintf("B\t%d\t%d\t%d\t%d\t%d", o.a, o.b, o.c, o.d, o.e)
+	case "SF":
+		return fmt.Sprintf("SF\t%d\t%d\t%d\t%d", o.a, o.b, o.c, o.d)
 	}
 	return fmt.Sprintf("%s\t%d", o.k, o.a)
 }
@@ -295,7 +341,30 @@ func (w *world) exec(o op) (extra string, res string, touched []int) {
 		orig := errors.New("e" + strconv.Itoa(o.d))
 		before := b.GetTotalSleep()
 		lastSleep = -1
-		err := b.BackoffWithCfgAndMaxSleep(cfgs[o.b].c, o.c, orig)
+		var err error
+		switch o.e {
+		case 1: // Backoff(cfg, err); per-call maximum must be -1
+			err = b.Backoff(cfgs[o.b].c, orig)
+		case 2: // BackoffWithMaxSleepTxnLockFast; cfg must be BoTxnLockFast (#5)
+			err = b.BackoffWithMaxSleepTxnLockFast(o.c, orig)
+		case 3, 4: // MayBackoffForRegionError that does back off; cfg must be BoRegionMiss (#2), per-call maximum -1
+			re := &errorpb.Error{Message: "e" + strconv.Itoa(o.d)}
+			if o.e == 3 {
+				re.EpochNotMatch = &errorpb.EpochNotMatch{}
+			} else {
+				re.NotLeader = &errorpb.NotLeader{RegionId: 7}
+			}
+			if retry.IsFakeRegionError(re) != (o.e == 3) {
+				panic("IsFakeRegionError")
+			}
+			w.reasons[re.String()] = o.d
+			err = retry.MayBackoffForRegionError(re, b)
+			if err != nil && errors.Cause(err).Error() == re.String() {
+				orig = errors.Cause(err)
+			}
+		default:
+			err = b.BackoffWithCfgAndMaxSleep(cfgs[o.b].c, o.c, orig)
+		}
 		real := b.GetTotalSleep() - before
 		res = classify(err, orig)
 		s := lastSleep
@@ -327,6 +396,29 @@ func (w *world) exec(o op) (extra string, res string, touched []int) {
 		} else {
 			touched = append(touched, o.b)
 		}
+	case "MN": // MayBackoffForRegionError that must not back off: nil error / real EpochNotMatch
+		var re *errorpb.Error
+		if o.b == 1 {
+			re = &errorpb.Error{Message: "real", EpochNotMatch: &errorpb.EpochNotMatch{CurrentRegions: []*metapb.Region{{Id: 1}}}}
+		}
+		if retry.IsFakeRegionError(re) {
+			res = "isfake-wrong"
+		}
+		if err := retry.MayBackoffForRegionError(re, w.bos[o.a]); err != nil {
+			res = "unexpected-error"
+		}
+		touched = []int{o.a}
+	case "SE":
+		cfgs[o.a].c.SetErrors(errVals[o.b-1])
+	case "SF":
+		cfgs[o.a].c.SetBackoffFnCfg(retry.NewBackoffFnCfg(o.b, o.c, o.d))
+		if cfgs[o.a].c.Base() != o.b {
+			res = "base-wrong"
+		}
+	case "SC":
+		w.bos[o.a].SetCtx(w.ctxs[o.b])
+		w.boCtx[o.a] = o.b
+		touched = []int{o.a}
 	case "R":
 		w.bos[o.a].Reset()
 		touched = []int{o.a}
@@ -350,6 +442,9 @@ func (w *world) run(o op) string {
 	sb.WriteString(extra)
 	sb.WriteString("\t=>\t")
 	sb.WriteString(res)
+	if w.sparse && o.k == "B" && o.d%150 != 0 { // long sequences: the state lists grow linearly, dump them rarely
+		touched = nil
+	}
 	if res != "panic" {
 		for _, i := range touched {
 			sb.WriteByte('\t')
@@ -410,17 +505,17 @@ func (g *gen) kind(i int) int {
 	case "excluded":
 		pool = []int{3, 3, 3, 15, 15, 0, 2, 1}
 	case "maxsleep":
-		pool = []int{5, 5, 0, 1, 3, 12, 11}
+		pool = []int{5, 5, 0, 1, 3, 12, 11, 23, 23}
 	case "custom":
-		pool = []int{11, 12, 13, 14, 1, 15, 2, 12, 11}
+		pool = []int{11, 12, 13, 14, 1, 15, 2, 12, 11, 23}
 	default:
-		pool = []int{0, 1, 2, 3, 4, 0, 1, 2, 4, 5, 6, 7, 8, 9, 10, 13}
+		pool = []int{0, 1, 2, 3, 4, 0, 1, 2, 4, 5, 6, 7, 8, 9, 10, 13, 17, 18, 19, 20, 21, 22}
 	}
 	k := pool[r.Intn(len(pool))]
 	if r.Intn(40) == 0 {
 		k = 16
 	}
-	if k == 5 && g.w.boVars[i] < 0 { // txnLockFast needs vars (nil vars on a fork of a noop back-offer panics)
+	if (k == 5 || k == 23) && g.w.boVars[i] < 0 { // txnLockFast needs vars (nil vars on a fork of a noop back-offer panics)
 		k = 0
 	}
 	return k
@@ -436,7 +531,16 @@ func (g *gen) backoff(i int, k int) string {
 		m = perCall[g.r.Intn(len(perCall))]
 	}
 	g.w.errSeq++
-	res := g.do(op{k: "B", a: i, b: k, c: m, d: g.w.errSeq})
+	api := 0
+	switch {
+	case m == -1 && k == 2 && g.r.Intn(3) == 0:
+		api = 3 + g.r.Intn(2)
+	case k == 5 && g.r.Intn(2) == 0:
+		api = 2
+	case m == -1 && g.r.Intn(2) == 0:
+		api = 1
+	}
+	res := g.do(op{k: "B", a: i, b: k, c: m, d: g.w.errSeq, e: api})
 	if strings.HasPrefix(res, "ok") {
 		g.exh[i] = 0
 	} else {
@@ -504,6 +608,23 @@ func (g *gen) randomOp() {
 		}
 	}
 	treeish := g.class == "tree" || g.class == "directed11" || g.class == "cancelkill"
+	customs := []int{11, 12, 13, 14, 15, 16, 23}
+	switch y := r.Intn(60); {
+	case y == 0:
+		g.do(op{k: "SE", a: customs[r.Intn(len(customs))], b: 1 + r.Intn(len(errVals))})
+		return
+	case y == 1 && (g.class == "custom" || g.class == "maxsleep" || r.Intn(3) == 0):
+		base := []int{1, 5, 20, 60}[r.Intn(4)]
+		cp := []int{60, 200, 1000}[r.Intn(3)]
+		g.do(op{k: "SF", a: customs[r.Intn(len(customs))], b: base, c: cp, d: 1 + r.Intn(4)})
+		return
+	case y == 2 || (y == 3 && g.class == "cancelkill"):
+		g.do(op{k: "SC", a: i, b: r.Intn(len(w.ctxs))})
+		return
+	case y == 4:
+		g.do(op{k: "MN", a: i, b: r.Intn(2)})
+		return
+	}
 	switch {
 	case x < 55 || (!treeish && x < 75):
 		g.backoff(i, g.kind(i))
@@ -591,6 +712,37 @@ func (g *gen) directed11() {
 	g.backoff(root, []int{2, 9, 8, 13}[r.Intn(4)])
 }
 
+// expoLines drives the real expo: X base cap n => value (compared with the model's expo), XP = probes outside the
+// model's domain (cap >= 2^53), reported only
+func expoLines(seed int64) {
+	r := rand.New(rand.NewSource(seed * 977))
+	bases := []int{1, 2, 3, 7, 100, 500, 2000, 1 << 31, 1<<52 + 1, 1<<53 - 1}
+	caps := []int{0, 1, 2, 7, 500, 3000, 10000, 1<<31 - 1, 1<<53 - 1, 1 << 53}
+	ns := []int{100, 500, 970, 971, 1000, 1022, 1023, 1024, 1025, 1100, 2000}
+	for n := 0; n <= 70; n++ {
+		ns = append(ns, n)
+	}
+	emit := func(tag string, b, c, n int) {
+		fmt.Fprintf(out, "%s\t%d\t%d\t%d\t=>\t%d\n", tag, b, c, n, retry.VerifExpo(b, c, n))
+	}
+	for _, b := range bases {
+		for _, c := range caps {
+			for _, n := range ns {
+				emit("X", b, c, n)
+			}
+		}
+	}
+	for i := 0; i < 3000; i++ {
+		emit("X", 1+r.Intn(1<<uint(1+r.Intn(40))), r.Intn(1<<uint(1+r.Intn(52))), r.Intn(2001))
+	}
+	for _, c := range []int{1<<53 + 1, 1<<62 - 1, 1<<63 - 1025, 1<<63 - 512, 1<<63 - 1} {
+		for _, n := range []int{0, 10, 61, 62, 63, 64, 1024, 2000} {
+			emit("XP", 2, c, n)
+			emit("XP", 1<<40+1, c, n)
+		}
+	}
+}
+
 func runSeq(seq int, class string, seed int64, nops int) {
 	r := rand.New(rand.NewSource(seed))
 	lim := limits[r.Intn(len(limits))]
@@ -603,6 +755,15 @@ func runSeq(seq int, class string, seed int64, nops int) {
 	if class == "directed11" {
 		g.directed11()
 		nops = 4
+	} else if class == "long" { // attempts far beyond the point where expo saturates (and where 2^n is +Inf as a double)
+		v := g.newVars()
+		g.w.sparse = true
+		g.do(op{k: "N", a: 0, b: v, c: 0})
+		k := []int{2, 13, 8, 0, 12, 5, 7}[r.Intn(7)]
+		for n := 0; n < 2100 && !g.dead; n++ {
+			g.backoff(0, k)
+		}
+		nops = 0
 	} else {
 		g.newRoot()
 	}
@@ -618,7 +779,14 @@ func startSeq(seq int, class string) {
 		ex = append(ex, fmt.Sprintf("%d:%d", nameID(k), v))
 	}
 	sort.Strings(ex)
-	fmt.Fprintf(out, "S\t%d\t%s\t%s\t%d\n", seq, class, strings.Join(ex, ";"), nameID("txnLockFast"))
+	var lf []string
+	for n, id := range nameIDs {
+		if strings.EqualFold(n, "txnLockFast") {
+			lf = append(lf, strconv.Itoa(id))
+		}
+	}
+	sort.Strings(lf)
+	fmt.Fprintf(out, "S\t%d\t%s\t%s\t%s\n", seq, class, strings.Join(ex, ";"), strings.Join(lf, ";"))
 }
 
 func endSeq(seq int, w *world) {
@@ -627,6 +795,12 @@ func endSeq(seq int, w *world) {
 	}
 	for _, v := range w.vars[1:] {
 		*v.Killed = 0
+	}
+	for _, c := range cfgs {
+		if c.govar == "-" {
+			c.c.SetErrors(c.origErr)
+			c.c.SetBackoffFnCfg(retry.NewBackoffFnCfg(c.origFn[0], c.origFn[1], c.origFn[2]))
+		}
 	}
 	fmt.Fprintf(out, "E\t%d\n", seq)
 }
@@ -657,6 +831,7 @@ func replay(file string) {
 			}
 			seq = atoi(f[1])
 			w = newWorld()
+			w.sparse = f[2] == "long"
 			startSeq(seq, f[2])
 		case "O":
 			o := op{k: f[1]}
@@ -666,7 +841,7 @@ func replay(file string) {
 				}
 				return 0
 			}
-			o.a, o.b, o.c, o.d = arg(1), arg(2), arg(3), arg(4)
+			o.a, o.b, o.c, o.d, o.e = arg(1), arg(2), arg(3), arg(4), arg(5)
 			if w.run(o) == "panic" {
 				w = nil
 			}
@@ -692,7 +867,7 @@ func main() {
 	log.ReplaceGlobals(lg, &log.ZapProperties{Core: capCore{}, Level: zap.NewAtomicLevelAt(zapcore.DebugLevel)})
 	initCfgs()
 	for _, c := range cfgs {
-		fmt.Fprintf(out, "CFG\t%d\t%d\t%d\t%d\t%d\t%d\t%s\n", c.id, c.nameID, c.base, c.cap, c.jit, c.errID, c.c.VerifName())
+		fmt.Fprintf(out, "CFG\t%d\t%d\t%d\t%d\t%d\t%d\t%s\t%s\n", c.id, c.nameID, c.base, c.cap, c.jit, c.errID, c.c.VerifName(), c.govar)
 	}
 	nameID("txnLockFast")
 	if len(os.Args) >= 3 && os.Args[1] == "replay" {
@@ -709,6 +884,14 @@ func main() {
 	}
 	if v := os.Getenv("VERIF_NSEQ"); v != "" {
 		nseq, _ = strconv.Atoi(v)
+	}
+	expoLines(seed)
+	nlong := 2
+	if os.Getenv("VERIF_TIER") == "thorough" {
+		nlong = 14
+	}
+	for s := 0; s < nlong; s++ {
+		runSeq(1000000+s, "long", seed*31+int64(s), 0)
 	}
 	classes := []string{"single", "tree", "tree", "directed11", "excluded", "cancelkill", "maxsleep", "custom", "tree", "single"}
 	for s := 0; s < nseq; s++ {
